@@ -29,9 +29,9 @@ def fl(lo, hi, nd=3):
     return st.floats(lo, hi, allow_nan=False).map(lambda v: round(v, nd))
 
 
-def st_ramp():
+def st_ramp(mx=6):
     return st.one_of(
-        st.lists(fl(-0.25, 0.6), min_size=1, max_size=6),
+        st.lists(fl(-0.25, 0.6), min_size=1, max_size=mx),
         st.lists(fl(0.05, 0.5), min_size=2, max_size=5).map(lambda v: sorted(v)),
         st.lists(fl(0.05, 0.5), min_size=2, max_size=4).map(lambda v: sorted(v) + sorted(v, reverse=True)[1:]),
         st.lists(fl(0.05, 0.5), min_size=1, max_size=3).map(lambda v: [x for x in v for _ in (0, 1)]),
@@ -44,7 +44,7 @@ def strategy(cls, tier):
             "n": st.lists(st.integers(2, 3), min_size=3, max_size=3),
             "jitter": st.sampled_from([0.0, 0.1]),
             "jseed": st.integers(0, 2**16),
-            "steps": st.lists(st.fixed_dictionaries({"ramp": st_ramp(), "fail_at": st.one_of(st.none(), st.none(), st.integers(0, 5))}), min_size=1, max_size=3),
+            "steps": st.lists(st.fixed_dictionaries({"ramp": st_ramp(6 if tier == "quick" else 10), "fail_at": st.one_of(st.none(), st.none(), st.integers(0, 5))}), min_size=1, max_size=3 if tier == "quick" else 4),
             "mu": fl(0.5, 2), "bulk": st.sampled_from([2.0, 10.0]), "r": fl(1.5, 4), "m": fl(0.3, 1.5), "beta": fl(0.0, 0.4),
             "use_job": st.booleans(), "x0": st.booleans(),
             "split": st.lists(fl(0.1, 0.9), min_size=0, max_size=4),
